@@ -118,6 +118,13 @@ Theorem C06_state_invariant :
 Proof. exact state_invariant. Qed.
 Print Assumptions C06_state_invariant.
 
+(* Starvation bound: one wake-up (one uv_run iteration, from any state, any epoll mask)
+   makes at most 32 alloc_cb calls, hence at most 32 buffer-carrying read callbacks. *)
+Theorem C06_budget :
+  forall (E : env) (s : st) (raw : Z), (nallocs (snd (run_once E s raw)) <= 32)%nat.
+Proof. exact budget. Qed.
+Print Assumptions C06_budget.
+
 (* The checker that is extracted and run on the implementation's traces
    (Spec/StreamReadSpec.v: exact stream, pairing, silence, no NULL call) accepts every
    trace of the model. *)
